@@ -38,6 +38,9 @@ impl Prop for C01P {
         for (c, r) in super::hugezst::mid_shapes(tier) {
             v.push(format!("extra:mid:{}x{}", c, r));
         }
+        for (c, r) in crate::engine::util::shapes(3) {
+            v.push(format!("extra:fromview:{}x{}", c, r));
+        }
         v
     }
     fn run_unit(&self, unit: &str, ctx: &mut Ctx) {
@@ -48,6 +51,11 @@ impl Prop for C01P {
         }
         if unit.starts_with("extra:chain:") {
             super::array_bfs::run_chain_unit(unit, ctx);
+            return;
+        }
+        if let Some(shape) = unit.strip_prefix("extra:fromview:") {
+            let (c, r) = super::hugezst::parse_shape(shape);
+            run_from_view(c, r, ctx);
             return;
         }
         if let Some(shape) = unit.strip_prefix("extra:mid:") {
@@ -77,6 +85,7 @@ impl Prop for C01P {
          (ii) wide and tall arrays (21, 33, 40, 48 lines, exact and spare capacity) through the in-place algorithms - sorts on tie-rich key lines (std's unstable sort only differs from a stable one beyond 20 elements), flips, translate, swaps - against the model. \
          (iii) two-step (thorough: also three-step, from the shapes up to 2x2) histories on ONE live object (nothing re-materialised between the steps, so spare capacity and stale bits beyond the length are carried over): from the distinct-label array of each shape up to 3x2 / 2x3, every action (exact and spare capacity) followed by every action of the state reached, with the same oracle after each step. \
          (iv) arrays whose dimensions cross 256 (thorough: 65536 - sizes at which a narrowed integer would truncate and library algorithms change strategy): insertion, removal (drains consumed from both ends), pop / push, clear, swap_dimensions, flips, translate, swaps, sorts, fill, copy_within at the first, a middle and the last index, exact and spare capacity, against the model. \
+         (v) owned arrays constructed from views: TooDee::from of every window (view and view_mut) of every shape up to 3x3 and of views built directly over an exact and over a longer slice, checked like any other initial state. \
          Afterwards each state's shortest history is replayed on one live object and must reach the recorded key (traces_validated_against_impl)."
             .into()
     }
@@ -133,6 +142,22 @@ fn run_huge_zst(c: usize, r: usize, ctx: &mut Ctx) {
                     }
                 };
                 observe(&t, c, r, "after construction", cs);
+                if cs.tier == crate::engine::Tier::Thorough {
+                    // an insertion that cannot fit (the cell count would exceed usize::MAX) must be rejected and leave
+                    // the array as it was (thorough tier: assumes the rejection does not walk the cells first)
+                    if (c * r).checked_add(r).is_none() {
+                        if guarded(|| t.push_col(vec![(); r])).is_ok() {
+                            cs.fail("insert:accepts-invalid", format!("push_col on a {}x{} array of () returned", c, r));
+                        }
+                        observe(&t, c, r, "after a rejected push_col", cs);
+                    }
+                    if (c * r).checked_add(c).is_none() {
+                        if guarded(|| t.push_row(vec![(); c])).is_ok() {
+                            cs.fail("insert:accepts-invalid", format!("push_row on a {}x{} array of () returned", c, r));
+                        }
+                        observe(&t, c, r, "after a rejected push_row", cs);
+                    }
+                }
                 if let Err(m) = guarded(|| t.swap_dimensions()) {
                     cs.fail("hugezst:panic", format!("swap_dimensions panicked: {}", m));
                     return;
@@ -268,5 +293,55 @@ fn run_mid(c: usize, r: usize, ctx: &mut Ctx) {
                 },
             );
         }
+    }
+}
+
+/// Owned arrays constructed with `TooDee::from(view)`: initial states like any other constructor's.
+fn run_from_view(c: usize, r: usize, ctx: &mut Ctx) {
+    use crate::engine::util::windows;
+    use toodee::{TooDeeOpsMut, TooDeeView, TooDeeViewMut};
+    let labels: Vec<u32> = (0..(c * r) as u32).collect();
+    let mut jobs: Vec<(String, (usize, usize), (usize, usize))> = Vec::new();
+    for (s, e) in windows(c, r) {
+        jobs.push(("view".into(), s, e));
+        jobs.push(("view_mut".into(), s, e));
+    }
+    for k in ["TooDeeView::new", "TooDeeViewMut::new", "TooDeeView::new over a longer slice", "TooDeeViewMut::new over a longer slice"] {
+        jobs.push((k.into(), (0, 0), (c, r)));
+    }
+    for (how, s, e) in jobs {
+        ctx.case(
+            || format!("TooDee::from({} {:?}-{:?}) of a {}x{} array", how, s, e, c, r),
+            |cs| {
+                cs.transitions = 1;
+                cs.outcome("accepted");
+                cs.nontrivial((c, r, &how, s, e));
+                let mut p: TooDee<u32> = materialize(c, r, &labels, false);
+                let mut long: Vec<u32> = labels.clone();
+                long.extend([7001, 7002, 7003]);
+                let (w, h) = if e.0 == s.0 || e.1 == s.1 { (0, 0) } else { (e.0 - s.0, e.1 - s.1) };
+                let mut exp: Vec<u32> = Vec::new();
+                for y in 0..h {
+                    for x in 0..w {
+                        exp.push(labels[(s.1 + y) * c + s.0 + x]);
+                    }
+                }
+                let model: Model<u32> = Model::from_flat(w, h, &exp);
+                let built = guarded(|| match how.as_str() {
+                    "view" => TooDee::from(p.view(s, e)),
+                    "view_mut" => TooDee::from(p.view_mut(s, e)),
+                    "TooDeeView::new" => TooDee::from(TooDeeView::new(c, r, &long[..c * r])),
+                    "TooDeeViewMut::new" => TooDee::from(TooDeeViewMut::new(c, r, &mut long[..c * r])),
+                    "TooDeeView::new over a longer slice" => TooDee::from(TooDeeView::new(c, r, &long)),
+                    _ => TooDee::from(TooDeeViewMut::new(c, r, &mut long)),
+                });
+                match built {
+                    Ok(t) => {
+                        check_state(&t, &model, cs, &format!("after TooDee::from({})", how));
+                    }
+                    Err(m) => cs.fail("ctor:panics-on-valid", format!("TooDee::from({}) panicked: {}", how, m)),
+                }
+            },
+        );
     }
 }
